@@ -822,6 +822,8 @@ impl Micro {
     format!("st {}", items.join(","))
   }
   fn parked_on(&self, modu: &ScriptedModulator, n: usize) -> Option<(usize, String)> {
+    // (calls whose handler was dropped — a cancelled request — are forgotten first)
+    let _ = modu.parked_live();
     let pat = format!("!c{}@localhost", n + 1);
     modu.parked().into_iter().enumerate().find(|(_, d)| d.contains(&pat))
   }
@@ -881,6 +883,7 @@ impl Micro {
     labels.push(format!("cleanup {u}"));
     for _ in 0..4 {
       self.c.pump(1).await;
+      let _ = modu.parked_live();
       let pat_user = format!(" {}@localhost ", MUSERS[u - 1]);
       let found = modu.parked().into_iter().enumerate().find(|(_, d)| d.starts_with("event MEMBER_LEFT") && d.contains(&pat_user));
       let Some((pi, desc)) = found else { break };
@@ -973,6 +976,80 @@ pub async fn run_micro_suite(seed: u64, cases: usize) -> String {
         let labels = vec![format!("spawn {ti} {} {u} {n}", if join { "join" } else { "leave" }), format!("run {ti}")];
         m.emit(&labels);
         *stats.entry(if join { "join" } else { "leave" }.into()).or_insert(0) += 1;
+      } else if choice < 52 {
+        // a third request arrives for a channel whose lock is held and waited for, just before the holder's notification
+        // returns: it is first polled after the holder has finished and before the waiter runs (the order the runtime
+        // gives on one worker: the connection task spawns it before the holder's wake-up is processed)
+        let Some(n) = (0..2usize).find(|n| m.holder(*n).is_some() && m.waiter(*n).is_some()) else { continue };
+        let ti = m.holder(n).unwrap();
+        let w = m.waiter(n).unwrap();
+        if in_handover.contains(&ti) || m.tasks[ti].conn == 0 {
+          continue;
+        }
+        let free: Vec<(usize, usize)> = live.iter().copied().filter(|(_, k)| m.pending_of_conn(*k).is_none()).collect();
+        let Some(&(u, k)) = free.first() else { continue };
+        // only when nothing else is in flight (the outcome for the holder is `ok`: no connection is closed by it)
+        if (0..2).any(|x| x != n && (m.holder(x).is_some() || m.waiter(x).is_some())) {
+          continue;
+        }
+        let Some((pi, _)) = m.parked_on(&modu, n) else { continue };
+        let id = m.c.id();
+        let di = m.tasks.len();
+        m.tasks.push(MTask { conn: k, u, join: true, n, id, stat: MStat::Waiting });
+        let wire = Req::Join { id, chan: full(CHANS[n]), ob: None }.wire().unwrap();
+        m.c.srv.send(k, &wire).await;
+        m.c.sent.push(Sent { conn: k, id, what: "join".into() });
+        modu.release(pi, true);
+        m.c.pump(1).await;
+        let mut labels = Vec::new();
+        let handover = m.is_handover(&modu, ti, n);
+        if handover {
+          // the holder went on to its hand-over announcement and still has the lock: release that as well
+          in_handover.insert(ti);
+          if let Some((hi, _)) = m.parked_on(&modu, n) {
+            modu.release(hi, true);
+            m.c.pump(1).await;
+          }
+        }
+        m.tasks[ti].stat = MStat::Done;
+        // classify the two from what can be seen: a reply = done; otherwise the one whose notification is parked holds the lock
+        for &t in &[w, di] {
+          let (kk, idd) = (m.tasks[t].conn, m.tasks[t].id);
+          let answered = (kk != 0 && !m.c.replies(kk, idd).is_empty()) || m.c.dead.contains(&kk);
+          m.tasks[t].stat = if answered { MStat::Done } else { MStat::Waiting };
+        }
+        if let Some((_, d)) = m.parked_on(&modu, n) {
+          for &t in &[w, di] {
+            if m.tasks[t].stat == MStat::Waiting {
+              let name = format!(" {}@localhost ", MUSERS[m.tasks[t].u - 1]);
+              let kind = if m.tasks[t].join { "event MEMBER_JOINED" } else { "event MEMBER_LEFT" };
+              if d.starts_with(kind) && d.contains(&name) {
+                m.tasks[t].stat = MStat::Parked;
+              }
+            }
+          }
+        }
+        // which of the two the runtime served first is the environment's choice (async-lock lets a newcomer barge unless the
+        // waiter has been passed over before): read it off the outcome — whoever still waits came second
+        let d_first = m.tasks[di].stat != MStat::Waiting && !(m.tasks[w].stat == MStat::Done && m.tasks[di].stat == MStat::Parked);
+        if handover {
+          labels.push(format!("run {ti} ok owner"));
+          labels.push(format!("spawn {di} join {u} {n}"));
+          labels.push(format!("run {di}"));
+          labels.push(format!("run {ti} ok"));
+        } else {
+          labels.push(format!("run {ti} ok"));
+          labels.push(format!("spawn {di} join {u} {n}"));
+        }
+        if d_first {
+          labels.push(format!("run {di}"));
+          labels.push(format!("run {w}"));
+        } else {
+          labels.push(format!("run {w}"));
+          labels.push(format!("run {di}"));
+        }
+        m.emit(&labels);
+        *stats.entry("arrive-before-waiter".into()).or_insert(0) += 1;
       } else if choice < 85 {
         // a parked notification returns
         let held: Vec<usize> = (0..2).filter(|n| m.holder(*n).is_some()).collect();
